@@ -256,8 +256,29 @@ func c19RunCase(t *testing.T, out *vh.Out, cs c19Case, rng *vh.Rand) {
 		s.Go(i, func() string { return vh.Catch(func() string { return c19Issue(c, kind, tok, i) }) })
 		started++
 	}
+	salted := c19Salted(t, c, tok)
+	kc := c19KeyClass(salted)
 	var pick c19Picker
 	switch cs.mode {
+	case "delaystore":
+		// directed: every thread advances as far as it can before ANY decrement is written (a thread parked at
+		// `put tok-id` is only released when nobody else can move): with the per-token lock around re-read AND
+		// store the others block; a re-read outside the lock lets several threads store the same decrement
+		for i := 0; i < cs.m; i++ {
+			startThread(i)
+		}
+		pick = func(cand []int, step int) int {
+			var free []int
+			for k, i := range cand {
+				if op := s.Parked(i); op == nil || !(op.Kind == "put" && kc(op.Key) == "tok-id") {
+					free = append(free, k)
+				}
+			}
+			if len(free) > 0 {
+				return free[rng.Intn(len(free))]
+			}
+			return rng.Intn(len(cand))
+		}
 	case "sequential":
 		// every request runs to completion before the next one starts
 		for i := 0; i < cs.m; i++ {
@@ -331,8 +352,6 @@ func c19RunCase(t *testing.T, out *vh.Out, cs c19Case, rng *vh.Rand) {
 	// LazyRevoke has queued the revocation; wait for the expiration worker (never gated) to finish it, so that
 	// the worker's effect has a definite place in the observed schedule (`bg`)
 	puts, lastUser := 0, -1
-	salted := c19Salted(t, c, tok)
-	kc := c19KeyClass(salted)
 	hk := c19Hooks{
 		keyClass: kc,
 		onEv: func(i int, op *vhOp) {
@@ -386,6 +405,10 @@ func TestVerifC19(t *testing.T) {
 		cases = vh.EnvInt("VERIF_C19_CASES", 1500)
 	}
 	c19RunCase(t, out, c19Case{n: 2, m: 2, kinds: []string{"lease", "read"}, mode: "latelease"}, rng.Fork(1<<40))
+	for n := 1; n <= 3; n++ {
+		kinds := []string{"read", "write", "recread", "denied"}[:n+1]
+		c19RunCase(t, out, c19Case{n: n, m: n + 1, kinds: kinds, mode: "delaystore"}, rng.Fork(1<<40+uint64(n)))
+	}
 	for ci := 0; ci < cases; ci++ {
 		r := rng.Fork(uint64(ci))
 		cs := c19Case{n: 1 + r.Intn(4)}
@@ -399,6 +422,8 @@ func TestVerifC19(t *testing.T) {
 		switch x := r.Intn(10); {
 		case x < 2:
 			cs.mode = "sequential"
+		case x < 3:
+			cs.mode = "delaystore"
 		case x < 5:
 			cs.mode = "burst"
 		default:
